@@ -45,11 +45,20 @@ class Blob:
 
     def arr(self):
         if self._arr is None:
-            self._arr = z3.Array('blob_%s' % self.name, z3.IntSort(), z3.BitVecSort(8))
+            self._arr = z3.Array('blob_%s' % self.name, z3.IntSort(), z3.IntSort())
         return self._arr
 
     def byte(self, idx):
-        return z3.BV2Int(z3.Select(self.arr(), idx))
+        """content byte at idx as an Int term; its range 0..255 is asserted on first use"""
+        t = z3.Select(self.arr(), idx)
+        e = core.Engine.cur
+        if e is not None and not getattr(e, 'replay', False):
+            seen = e.tags.setdefault('blob_bytes', set())
+            k = (self.name, z3.simplify(idx).sexpr() if z3.is_expr(idx) else idx)
+            if k not in seen:
+                seen.add(k)
+                e.add(t >= 0, t <= 255)
+        return t
 
     def __repr__(self):
         return 'Blob(%s)' % self.name
@@ -537,6 +546,15 @@ def rope_eq(x, y):
             elif core.prove(cx[2] == cy[2]):
                 cy = ('view', cy[1], cx[2], cy[3])
                 continue
+        # whole views of two different fixed-size blobs of equal size: compare blob-wise and go on
+        if kx == 'view' and ky == 'view' and cx[1] is not cy[1]:
+            fx = z3.simplify(cx[2]).eq(z3.IntVal(0)) and z3.simplify(cx[3]).eq(z3.simplify(cx[1].length))
+            fy = z3.simplify(cy[2]).eq(z3.IntVal(0)) and z3.simplify(cy[3]).eq(z3.simplify(cy[1].length))
+            if fx and fy and z3.is_int_value(z3.simplify(cx[1].length)) and z3.simplify(cx[1].length).eq(z3.simplify(cy[1].length)):
+                conds.append(blob_eq(cx[1], cy[1]))
+                adv_x()
+                adv_y()
+                continue
         # a view that is provably empty can be skipped
         if kx == 'view' and core.prove(cx[2] == cx[3]):
             adv_x()
@@ -554,6 +572,25 @@ def rope_eq(x, y):
         else:
             conds.append(n == 0)
     return core.And(*conds)
+
+
+def blob_eq(b1, b2):
+    """content equality of two different opaque blobs of the same fixed size: a free Boolean (cached per
+    pair), except where the model knows the contents differ: encodings of distinct keys, and results of
+    one uninterpreted function under the collision-freedom switch"""
+    if b1 is b2:
+        return True
+    k1, k2 = b1.meta.get('der_of'), b2.meta.get('der_of')
+    if k1 is not None and k2 is not None and k1 is not k2:
+        return False
+    e = E()
+    if e.tags.get('collision_free') and b1.meta.get('uf') and b1.meta.get('uf') == b2.meta.get('uf'):
+        return False
+    cache = e.tags.setdefault('blob_eq', {})
+    key = tuple(sorted([b1.name, b2.name]))
+    if key not in cache:
+        cache[key] = e.newvar('blob_eq_%s_%s' % key, z3.BoolSort())
+    return SxBool(cache[key])
 
 
 def rope_key(x):
